@@ -2,6 +2,7 @@ import Driver.Wire
 import Driver.WireSpec
 import Driver.CursorDrv
 import TinsModel.Gen.EntryPoints
+import TinsModel.Wire.Raw.Misc
 /- property C01: model mode = the shared wire driver + the stream-model driver; spec mode = WireSpec.spec01 -/
 namespace Driver.C01
 open Driver
@@ -47,12 +48,53 @@ def entrySpec (key out : String) : String :=
   match Tins.Gen.EntryPoints.all.find? (fun e => entryOpKey e == key) with
   | none => s!"violates entry-unknown-key {key}"
   | some e =>
-    if out == "ok" || out == "null" || out == "throw malformed_packet" then "ok"
+    if out == "ok" || out.startsWith "ok " || out == "null" || out == "throw malformed_packet" then "ok"
     else if out.startsWith "throw " then
       let x := (out.drop 6).toString
       if !yieldsPacket e && (libtinsExceptions.contains x || x.startsWith "tins:") then "ok"
       else s!"violates entry-exception {x}"
     else s!"violates entry-outcome {out}"
+
+/-! the rows whose result is a plain value are compared with the raw-pointer models of TinsModel/Wire/Raw/Misc.lean, evaluated on the
+    same bytes (memory = exactly the caller's buffer): `extract_metadata` of IP / TCP / EthernetII / EAPOL (header size, or
+    `malformed_packet` below the header size), `hw_address_to_string`, `Utils::crc32` -/
+
+def metaHeaderSize (out : String) : Option Nat :=
+  if out.startsWith "ok meta=" then (((out.drop 8).toString.splitOn ",").headD "").toNat? else none
+
+def expectOut {α} (m : Tins.Out α) (okWith : α → String → Bool) (out : String) : Option String :=
+  match m with
+  | .ok v => if okWith v out then none else some "value"
+  | .throw e => if out == "throw " ++ e.name then none else some s!"expected-throw-{e.name}"
+  | .fault s => some s!"model-fault {s}"
+
+/-- `none` = no raw model for this row, or the implementation agrees with it -/
+def entryModel (key : String) (b : Tins.Bytes) (out : String) : Option String :=
+  open Tins.Wire.Raw.Misc in
+  if key.startsWith "IP::extract_metadata(" then
+    expectOut (ipMetadata b) (fun v o => metaHeaderSize o == some v.1) out
+  else if key.startsWith "TCP::extract_metadata(" then
+    expectOut (tcpMetadata b) (fun v o => metaHeaderSize o == some v) out
+  else if key.startsWith "EthernetII::extract_metadata(" then
+    expectOut (ethMetadata b) (fun v o => metaHeaderSize o == some v.1) out
+  else if key.startsWith "EAPOL::extract_metadata(" then
+    expectOut (eapolMetadata b) (fun v o => metaHeaderSize o == some v) out
+  else if key.startsWith "Internals::hw_address_to_string(" then
+    expectOut (hwToString b b.length) (fun v o => o == "ok str=" ++ (if v.isEmpty then "-" else v)) out
+  else if key.startsWith "Utils::crc32(" then
+    expectOut (crc32Raw b b.length) (fun v o => o == s!"ok u32={v}") out
+  else none
+
+def entrySpecV (key hex out : String) : String :=
+  match entrySpec key out with
+  | "ok" =>
+    match Tins.Wire.parseHexStr hex with
+    | some b =>
+      match entryModel key b out with
+      | none => "ok"
+      | some why => s!"violates entry-raw-model {why} {out}"
+    | none => "ok"
+  | r => r
 
 /-- stream ops: the oracle is `cursor_safe` itself — only malformed_packet / serialization_error may be thrown -/
 def specStep (st : WireSpec.SState) (line : String) : WireSpec.SState × String :=
@@ -60,6 +102,7 @@ def specStep (st : WireSpec.SState) (line : String) : WireSpec.SState × String 
   | [op, out0] =>
     let out := out0.trimAscii.toString
     match words op with
+    | "entry" :: key :: hex :: _ => (st, entrySpecV key hex out)
     | "entry" :: key :: _ => (st, entrySpec key out)
     | w :: _ =>
       if CursorDrv.isCursorOp w then
